@@ -63,6 +63,14 @@ def _models(tier):
       feature_configs=[_fc('a', monotonicity='increasing', nk=nk), _fc('c', num_buckets=3, monotonicity=[(0, 1)])], output_min=-1.0, output_max=2.0,
       output_initialization=[-1.0, 2.0])),
             [('a', 'increasing'), ('c', ('pair', 0, 1))], (-1.0, 2.0)))
+  M.append(('calibrated-lattice-missing', lambda: P.CalibratedLattice(C.CalibratedLatticeConfig(
+      feature_configs=[_fc('a', monotonicity='increasing', nk=nk, default_value=-1.0), _fc('b', monotonicity='decreasing', nk=nk)],
+      output_min=0.0, output_max=1.0, output_initialization=[0.0, 1.0])),
+            [('a', 'increasing'), ('b', 'decreasing')], (0.0, 1.0), {}, dict(a=-1.0)))
+  M.append(('calibrated-linear-missing', lambda: P.CalibratedLinear(C.CalibratedLinearConfig(
+      feature_configs=[_fc('a', monotonicity='decreasing', nk=3, default_value=0.0), _fc('c', num_buckets=3, monotonicity=[(0, 2)], default_value=-1)],
+      use_bias=False, output_min=-1.0, output_max=1.0, output_initialization=[-1.0, 1.0])),
+            [('a', 'decreasing'), ('c', ('pair', 0, 2))], (-1.0, 1.0), dict(a=[0.0, 1.0, 2.0]), dict(a=0.0)))
   M.append(('calibrated-lattice-output-calibration', lambda: P.CalibratedLattice(C.CalibratedLatticeConfig(
       feature_configs=[_fc('a', monotonicity='increasing', nk=nk), _fc('b', nk=nk)], output_min=0.0, output_max=1.0, output_calibration=True,
       output_calibration_num_keypoints=2, output_initialization=[0.0, 1.0])),
@@ -209,6 +217,20 @@ def case_model(**p):
   done, mism = tr.validate(np.random.default_rng(0), n=2, gen=gen)
   case.meta.update(validation_points=done, validation_mismatch=mism, nodes=tr.n_nodes, variables=[v.name for v in tr.variables])
   var_names = [v.name for v in tr.variables]
+  # right after construction: the initial value of every constrained variable already satisfies what its constraint establishes
+  sym.new_ctx()
+  init_bad = []
+  for v in tr.variables:
+    if not v.trainable:
+      continue
+    preds, kind = constraint_predicates(v, sym.obj(v.numpy()))
+    for q_ in preds or []:
+      q_ = z3.simplify(sym.b(q_)) if sym.is_z(sym.b(q_)) else q_
+      if not (q_ is True or (sym.is_z(q_) and z3.is_true(q_))):
+        init_bad.append('%s (%s)' % (v.name, kind))
+        break
+  case.record('initial-weights-satisfy-their-constraints', 'sat' if init_bad else 'unsat', kind='structural', witness={},
+              replay=dict(fn='model-init', params=p), sig=dict(query='init', model=label), note=', '.join(init_bad)[:200] or 'all constrained variables')
 
   def fresh():
     sym.new_ctx()
@@ -261,6 +283,10 @@ def case_model(**p):
     cat_other = [i for i in range(nin) if xs[i] is None]
     combos = list(itertools.product(range(3), repeat=len(cat_other))) or [()]
     kps = entry[4] if len(entry) > 4 else {}
+    missing = entry[5] if len(entry) > 5 else {}
+    if feat in missing and not isinstance(goal, tuple):
+      # the claim is for pairs of non-missing points of the feature that moves
+      rel += [xs[fi][0, 0] != Fraction(missing[feat]), xs[fi][1, 0] != Fraction(missing[feat])]
     cont = [i for i in range(nin) if names[i] not in cats and not (i == fi and isinstance(goal, tuple))]
     piece_sets = []
     for i in cont:
@@ -341,6 +367,20 @@ def replay(r):
   entry = [m for m in _models('quick') if m[0] == p['model']][0]
   label, thunk, goals, bounds = entry[:4]
   model = thunk()
+  if rp['fn'] == 'model-init':
+    # the real constraints applied to the initial values must not move them
+    # (initial values may be random: up to 30 fresh models are built)
+    moved = {}
+    for attempt in range(30):
+      for v in model.trainable_variables:
+        if v.constraint is not None:
+          d = float(tf.reduce_max(tf.abs(v.constraint(v) - v)))
+          if d > 1e-5:
+            moved[v.name] = d
+      if moved:
+        break
+      model = thunk()
+    return dict(reproduced=bool(moved), detail=dict(moved_by_own_constraint=moved, fresh_models_built=attempt + 1))
   w = r['witness']
   tr_vars = None
   names = _input_names(model)
@@ -373,7 +413,7 @@ def cases(tier, seed):
   for m in _models(tier):
     hard = m[0] in ('calibrated-lattice-kfl', 'ensemble-rtl', 'ensemble-rtl-unconstrained-first', 'ensemble-explicit', 'ensemble-linear-combination',
                     'ensemble-linear-combination-upper-bound', 'ensemble-linear-combination-bounded',
-                    'calibrated-lattice-output-calibration')
+                    'calibrated-lattice-output-calibration', 'calibrated-lattice-missing')
     out.append(dict(name=m[0], fn='case_model', params=dict(name=m[0], model=m[0], tier=tier, required=not hard, split=False,
                                                             timeout=(40 if hard else 90) if tier == 'quick' else 300),
                     cap=1800, required=not hard))
